@@ -242,31 +242,46 @@ Proof.
   repeat (apply andb_true_intro; split); apply Z.ltb_lt; unfold blen in *; lia.
 Qed.
 
-(* in bytes: the mark fits iff the cache key is shorter than chunkSize - 5 *)
-Lemma key_fits_iff_proved pk cc : key_fits pk cc = true <-> blen pk + blen cc <= 65530.
+Lemma flag_key_guard : cache_key_guard = true. Proof. reflexivity. Qed.
+
+(* the guard is exact: a key is cacheable iff the mark fits a fastcache chunk under it *)
+Lemma cacheable_is_mark_fits_proved pk cc : cacheable_key pk cc = key_fits pk cc.
 Proof.
-  unfold key_fits, fc_fits, entry_len, blen. change fastcache_chunk_size with 65536.
+  apply eq_true_iff_eq. unfold cacheable_key, key_fits, fc_fits, entry_len, blen.
+  change fastcache_chunk_size with 65536. change cache_max_entry_size with 65532.
   rewrite !andb_true_iff, !Z.ltb_lt. lia.
 Qed.
 
-Lemma set_neg_fits c pk cc : key_fits pk cc = true -> set_neg c pk cc = c_set c pk cc CNeg.
-Proof. intros H. unfold set_neg, fc_set. rewrite (fits_neg pk cc H). reflexivity. Qed.
+Lemma cacheable_fits pk cc : cacheable_key pk cc = true -> key_fits pk cc = true.
+Proof. rewrite cacheable_is_mark_fits_proved. auto. Qed.
 
-(* with the mark, a store of a found row always leaves an entry that was written by this store *)
-Lemma set_pos_cases c pk cc ex v : key_fits pk cc = true ->
-  set_pos true c pk cc ex v = c_set c pk cc CBig \/ set_pos true c pk cc ex v = c_set c pk cc (CPos ex v).
+(* with the guard, a store of "known missing" is skipped for an uncacheable key and lands otherwise *)
+Lemma set_neg_cases c pk cc :
+  (cacheable_key pk cc = false /\ set_neg true c pk cc = c) \/
+  (cacheable_key pk cc = true /\ set_neg true c pk cc = c_set c pk cc CNeg).
 Proof.
-  intros H. unfold set_pos, fc_set. cbn [andb]. destruct (too_big pk cc v) eqn:T.
+  unfold set_neg, key_skipped. cbn [andb]. destruct (cacheable_key pk cc) eqn:Ck; cbn [negb].
+  - right. split; auto. unfold fc_set. rewrite (fits_neg pk cc (cacheable_fits pk cc Ck)). reflexivity.
+  - left. auto.
+Qed.
+
+(* with the mark and the guard, a store of a found row is skipped for an uncacheable key and otherwise
+   leaves an entry that was written by this store *)
+Lemma set_pos_cases c pk cc ex v :
+  (cacheable_key pk cc = false /\ set_pos true true c pk cc ex v = c) \/
+  (cacheable_key pk cc = true /\
+   (set_pos true true c pk cc ex v = c_set c pk cc CBig \/ set_pos true true c pk cc ex v = c_set c pk cc (CPos ex v))).
+Proof.
+  unfold set_pos, key_skipped, fc_set. cbn [andb]. destruct (cacheable_key pk cc) eqn:Ck; cbn [negb]; [right|left; auto].
+  split; auto. pose proof (cacheable_fits pk cc Ck) as H. destruct (too_big pk cc v) eqn:T.
   - left. unfold key_fits in H. rewrite H. reflexivity.
   - right. rewrite (fits_pos pk cc ex v H T). reflexivity.
 Qed.
 
 Section SeqProof.
-(* the (pKey, cCols) pairs a history uses; on them the cache key must be injective (finding F7) and
-   short enough for the mark to fit a fastcache chunk (shorter than 65531 bytes, finding F26b) *)
+(* the (pKey, cCols) pairs a history uses; on them the cache key must be injective (finding F7) *)
 Variable K : bytes * bytes -> Prop.
 Hypothesis K_inj : forall k1 k2, K k1 -> K k2 -> make_key (fst k1) (snd k1) = make_key (fst k2) (snd k2) -> k1 = k2.
-Hypothesis K_fits : forall k, K k -> key_fits (fst k) (snd k) = true.
 
 Notation cstate := (cst (U:=sstate)).
 
@@ -275,12 +290,13 @@ Definition entry_ok (st : store bytes) (now : Z) (pk cc : bytes) (e : option cen
   | Some (CPos exp v) => raw_lookup st pk cc = Some (mkRow v exp)
   | Some CBig => True                         (* reads consult the storage *)
   | Some CNeg => lookup now st pk cc = None
-  | None => lookup now st pk cc = None
+  | None => cacheable_key pk cc = true -> lookup now st pk cc = None   (* every write of a cacheable key left an entry *)
   end.
 
 Record CI (s : cstate) : Prop := mkCI {
   CI_now : c_now s = snd (c_under s);
   CI_entries : forall pk cc, K (pk, cc) -> entry_ok (fst (c_under s)) (snd (c_under s)) pk cc (c_get (c_cache s) pk cc);
+  CI_unc : forall pk cc, K (pk, cc) -> cacheable_key pk cc = false -> c_get (c_cache s) pk cc = None;
   CI_sorted : parts_sorted (fst (c_under s));
   CI_csorted : sorted (c_cache s)
 }.
@@ -327,24 +343,39 @@ Proof.
   destruct e as [[|ex v|]|]; auto. rewrite H. auto.
 Qed.
 
-(* the cache gets entry e under one key while the storage changes at most the row of that key *)
-Lemma CI_set st st' now c pk cc e : CI (mkC (st, now) c now) -> K (pk, cc) ->
+(* the cache gets entry e under one cacheable key while the storage changes at most the row of that key *)
+Lemma CI_set st st' now c pk cc e : CI (mkC (st, now) c now) -> K (pk, cc) -> cacheable_key pk cc = true ->
   entry_ok st' now pk cc (Some e) ->
   (forall pk' cc', (pk', cc') <> (pk, cc) -> raw_lookup st' pk' cc' = raw_lookup st pk' cc') ->
   parts_sorted st' ->
   CI (mkC (st', now) (c_set c pk cc e) now).
 Proof.
-  intros [Hn He Hs Hc] HK Hok Hfr Hs'. cbn [c_now c_under c_cache fst snd] in *. constructor; cbn [c_now c_under c_cache fst snd]; auto.
+  intros [Hn He Hu Hs Hc] HK Ck Hok Hfr Hs'. cbn [c_now c_under c_cache fst snd] in *. constructor; cbn [c_now c_under c_cache fst snd]; auto.
   - intros pk' cc' HK'. destruct (key_dec pk cc pk' cc') as [E|N].
     + inversion E; subst. rewrite c_get_set_same. exact Hok.
     + rewrite c_get_set_other by assumption. eapply entry_ok_congr; [|apply He; assumption].
       apply Hfr. assumption.
+  - intros pk' cc' HK' Cu. destruct (key_dec pk cc pk' cc') as [E|N].
+    + inversion E; subst. congruence.
+    + rewrite c_get_set_other by assumption. apply Hu; assumption.
   - apply sm_put_sorted. exact Hc.
 Qed.
 
-(* write-through of one row, whatever its size *)
+(* the storage changes at most the row of an uncacheable key; the cache, which holds nothing under it, stays *)
+Lemma CI_skip st st' now c pk cc : CI (mkC (st, now) c now) -> K (pk, cc) -> cacheable_key pk cc = false ->
+  (forall pk' cc', (pk', cc') <> (pk, cc) -> raw_lookup st' pk' cc' = raw_lookup st pk' cc') ->
+  parts_sorted st' ->
+  CI (mkC (st', now) c now).
+Proof.
+  intros [Hn He Hu Hs Hc] HK Cu Hfr Hs'. cbn [c_now c_under c_cache fst snd] in *. constructor; cbn [c_now c_under c_cache fst snd]; auto.
+  intros pk' cc' HK'. destruct (key_dec pk cc pk' cc') as [E|N].
+  - inversion E; subst. rewrite (Hu pk cc HK Cu). cbn [entry_ok]. congruence.
+  - eapply entry_ok_congr; [|apply He; assumption]. apply Hfr. assumption.
+Qed.
+
+(* write-through of one row, whatever its size, whatever the length of its key *)
 Lemma CI_write st now c pk cc v ex : CI (mkC (st, now) c now) -> K (pk, cc) ->
-  CI (mkC (set_row st pk cc (mkRow v ex), now) (set_pos true c pk cc ex v) now).
+  CI (mkC (set_row st pk cc (mkRow v ex), now) (set_pos true true c pk cc ex v) now).
 Proof.
   intros HCI HK.
   assert (Hfr : forall pk' cc', (pk', cc') <> (pk, cc) ->
@@ -352,18 +383,25 @@ Proof.
   { intros pk' cc' N. apply raw_set_other. assumption. }
   assert (Hs' : parts_sorted (set_row st pk cc (mkRow v ex))).
   { apply set_row_sorted. exact (CI_sorted _ HCI). }
-  destruct (set_pos_cases c pk cc ex v (K_fits (pk, cc) HK)) as [E|E]; rewrite E;
-    apply (CI_set st _ now c pk cc _ HCI HK); auto; cbn [entry_ok]; auto. apply raw_set_same.
+  destruct (set_pos_cases c pk cc ex v) as [[Cu E]|[Ck [E|E]]]; rewrite E.
+  - apply (CI_skip st _ now c pk cc HCI HK Cu); auto.
+  - apply (CI_set st _ now c pk cc _ HCI HK Ck); auto; cbn [entry_ok]; auto.
+  - apply (CI_set st _ now c pk cc _ HCI HK Ck); auto; cbn [entry_ok]. apply raw_set_same.
 Qed.
 
 (* caching "known missing" for a key whose live view is empty *)
 Lemma CI_negative st now c pk cc : CI (mkC (st, now) c now) -> K (pk, cc) -> lookup now st pk cc = None ->
-  CI (mkC (st, now) (set_neg_if_absent c pk cc) now).
+  CI (mkC (st, now) (set_neg_if_absent true c pk cc) now).
 Proof.
   intros HCI HK HL. unfold set_neg_if_absent. destruct (c_get c pk cc) eqn:Eg; [exact HCI|].
-  rewrite (set_neg_fits c pk cc (K_fits (pk, cc) HK)).
-  apply (CI_set st st now c pk cc CNeg HCI HK); auto. exact (CI_sorted _ HCI).
+  destruct (set_neg_cases c pk cc) as [[Cu E]|[Ck E]]; rewrite E; [exact HCI|].
+  apply (CI_set st st now c pk cc CNeg HCI HK Ck); auto. exact (CI_sorted _ HCI).
 Qed.
+
+(* a fill under a key that is not cacheable changes nothing *)
+Lemma fills_skip c pk cc v : cacheable_key pk cc = false ->
+  set_pos true true c pk cc 0 v = c /\ set_neg true c pk cc = c.
+Proof. intros Cu. unfold set_pos, set_neg, key_skipped. rewrite Cu. cbn. auto. Qed.
 
 Lemma lookup_mono (st : store bytes) now d pk cc : 0 <= d -> lookup now st pk cc = None -> lookup (now + d) st pk cc = None.
 Proof.
@@ -389,19 +427,19 @@ Definition op_domain (o : sop) : Prop :=
 
 Lemma CI_put_batch items : forall st now c, CI (mkC (st, now) c now) -> Forall K (map fst items) ->
   CI (mkC (put_batch st items, now)
-          (fold_left (fun c it => set_pos true c (fst (fst it)) (snd (fst it)) 0 (snd it)) items c) now).
+          (fold_left (fun c it => set_pos true true c (fst (fst it)) (snd (fst it)) 0 (snd it)) items c) now).
 Proof.
   unfold put_batch. induction items as [|[[pk cc] v] items IH]; intros st now c HCI HK; cbn [fold_left fst snd map] in *; [exact HCI|].
   inversion HK as [|? ? Hk Hr]; subst. apply IH; [|exact Hr]. apply (CI_write st now c pk cc v 0 HCI Hk).
 Qed.
 
-(* filling after a storage GetBatch: a key without an entry has no live row, so the storage said
-   "missing"; a key with an entry (the mark included) is left alone *)
+(* filling after a storage GetBatch: a cacheable key without an entry has no live row, so the storage said
+   "missing"; a key with an entry (the mark included) is left alone; so is a key that is not cacheable *)
 Lemma CI_batch_fill st now pk ccs : forall c, CI (mkC (st, now) c now) -> Forall (fun cc => K (pk, cc)) ccs ->
   CI (mkC (st, now)
           (fold_left (fun c ccv => match snd ccv with
-                                   | Some v => fill_positive_batch true c pk (fst ccv) v
-                                   | None => set_neg_if_absent c pk (fst ccv)
+                                   | Some v => fill_positive_batch true true c pk (fst ccv) v
+                                   | None => set_neg_if_absent true c pk (fst ccv)
                                    end) (combine ccs (get_batch now st pk ccs)) c) now).
 Proof.
   induction ccs as [|cc ccs IH]; intros c HCI HK; cbn [get_batch map combine fold_left fst snd]; [exact HCI|].
@@ -411,7 +449,10 @@ Proof.
   destruct (c_get c pk cc) as [e|] eqn:Eg.
   - (* an entry is there: nothing changes *)
     destruct (get now st pk cc); unfold set_pos_if_absent, set_neg_if_absent; rewrite Eg; exact HCI.
-  - cbn [entry_ok] in He. unfold get. rewrite He. cbn [option_map]. apply CI_negative; assumption.
+  - cbn [entry_ok] in He. destruct (cacheable_key pk cc) eqn:Ck.
+    + unfold get. rewrite (He eq_refl). cbn [option_map]. apply CI_negative; auto.
+    + unfold set_pos_if_absent, set_neg_if_absent. rewrite Eg.
+      destruct (get now st pk cc) as [v|]; [rewrite (proj1 (fills_skip c pk cc v Ck))|rewrite (proj2 (fills_skip c pk cc [] Ck))]; exact HCI.
 Qed.
 
 Lemma get_cached_agrees st now c pk cc : CI (mkC (st, now) c now) -> K (pk, cc) ->
@@ -426,14 +467,14 @@ Proof.
     unfold get, lookup. rewrite He. reflexivity.
 Qed.
 
-(* one step of the cache as the code has it now (big values marked) *)
+(* one step of the cache as the code has it now (big values marked, uncacheable keys skipped) *)
 Theorem cache_step_gen_transparent s o : CI s -> op_domain o ->
-  let r := cache_step_gen spec_step true s o in
+  let r := cache_step_gen spec_step true true s o in
   CI (fst r) /\ c_under (fst r) = fst (spec_step (c_under s) o) /\
   (dont_care (c_under s) o = true \/ snd r = snd (spec_step (c_under s) o)).
 Proof.
   intros HCI [HK Hdom]. destruct s as [[st now] c cnow].
-  assert (Ecn : cnow = now) by (destruct HCI as [Hn _ _ _]; exact Hn). subst cnow.
+  assert (Ecn : cnow = now) by (destruct HCI as [Hn _ _ _ _]; exact Hn). subst cnow.
   pose proof (CI_entries _ HCI) as He. cbn [c_under c_cache fst snd] in He.
   destruct o as [pk cc v|items|pk cc|pk ccs|pk a f|pk cc v ttl|pk cc old new ttl|pk cc e|pk cc|pk a f|pk cc|d];
     cbn [op_keys] in HK.
@@ -452,8 +493,14 @@ Proof.
       unfold fill_positive, set_pos_if_absent, set_neg_if_absent. rewrite flag_fill_guarded.
       destruct (get now st pk cc) as [v|]; rewrite Eg; cbn [fst snd];
         (split; [exact HCI|split; [reflexivity|right; reflexivity]]).
-    + unfold get. rewrite He. cbn [option_map fst snd]. split; [|split; [reflexivity|right; reflexivity]].
-      apply CI_negative; assumption.
+    + destruct (cacheable_key pk cc) eqn:Ck.
+      * unfold get. rewrite (He eq_refl). cbn [option_map fst snd]. split; [|split; [reflexivity|right; reflexivity]].
+        apply CI_negative; auto.
+      * (* not cacheable: the storage answers, the fills are skipped *)
+        unfold fill_positive, set_pos_if_absent, set_neg_if_absent. rewrite flag_fill_guarded.
+        destruct (get now st pk cc) as [v|]; rewrite Eg;
+          [rewrite (proj1 (fills_skip c pk cc v Ck))|rewrite (proj2 (fills_skip c pk cc [] Ck))]; cbn [fst snd];
+          (split; [exact HCI|split; [reflexivity|right; reflexivity]]).
   - (* GetBatch *)
     assert (HKc : Forall (fun cc => K (pk, cc)) ccs).
     { rewrite Forall_forall in *. intros cc Hin. apply HK. apply in_map_iff. exists cc. auto. }
@@ -486,11 +533,13 @@ Proof.
     cbn [cache_step_gen c_under c_cache c_now spec_step fst snd dont_care]. rewrite flag_delete_marker. unfold compare_and_delete.
     destruct (lookup now st pk cc) as [r|] eqn:El; [destruct (lex_eqb (rval r) e)|]; cbn [fst snd];
       (split; [|split; [reflexivity|right; reflexivity]]); auto.
-    rewrite (set_neg_fits c pk cc (K_fits (pk, cc) HK1)).
-    apply (CI_set st _ now c pk cc CNeg HCI HK1).
-    + cbn [entry_ok]. unfold lookup. rewrite raw_del_same by exact (CI_sorted _ HCI). reflexivity.
-    + intros pk' cc' N. apply raw_del_other; [exact (CI_sorted _ HCI)|exact N].
-    + apply del_row_sorted. exact (CI_sorted _ HCI).
+    assert (Hfr : forall pk' cc', (pk', cc') <> (pk, cc) -> raw_lookup (del_row st pk cc) pk' cc' = raw_lookup st pk' cc').
+    { intros pk' cc' N. apply raw_del_other; [exact (CI_sorted _ HCI)|exact N]. }
+    assert (Hs' : parts_sorted (del_row st pk cc)) by (apply del_row_sorted; exact (CI_sorted _ HCI)).
+    destruct (set_neg_cases c pk cc) as [[Cu E]|[Ck E]]; rewrite E.
+    + apply (CI_skip st _ now c pk cc HCI HK1 Cu); auto.
+    + apply (CI_set st _ now c pk cc CNeg HCI HK1 Ck); auto.
+      cbn [entry_ok]. unfold lookup. rewrite raw_del_same by exact (CI_sorted _ HCI). reflexivity.
   - (* TTLGet *) inversion HK as [|? ? HK1 _]; subst. pose proof (He pk cc HK1) as Hk.
     cbn [cache_step_gen c_under c_cache c_now spec_step fst snd dont_care]. unfold c_answer.
     destruct (c_get c pk cc) as [[|ex v|]|] eqn:Eg; cbn [entry_ok] in Hk.
@@ -498,33 +547,40 @@ Proof.
     + unfold get, lookup. rewrite Hk. unfold expired, c_expired. cbn [rexp rval].
       destruct ((0 <? ex) && (ex <=? now)) eqn:Ex; cbn [fst snd option_map].
       * split; [|split; [reflexivity|right; reflexivity]].
-        destruct HCI as [Hn He' Hs Hc]. cbn [c_now c_under c_cache fst snd] in *. constructor; cbn [c_now c_under c_cache fst snd]; auto.
+        destruct HCI as [Hn He' Hu Hs Hc]. cbn [c_now c_under c_cache fst snd] in *. constructor; cbn [c_now c_under c_cache fst snd]; auto.
         -- intros pk' cc' HK'. destruct (key_dec pk cc pk' cc') as [E|N].
-           ++ inversion E; subst. rewrite c_get_del_same by assumption. cbn. unfold lookup. rewrite Hk.
+           ++ inversion E; subst. rewrite c_get_del_same by assumption. cbn. intros _. unfold lookup. rewrite Hk.
               unfold expired. cbn. rewrite Ex. reflexivity.
            ++ rewrite c_get_del_other by assumption. apply He'. assumption.
+        -- intros pk' cc' HK' Cu. destruct (key_dec pk cc pk' cc') as [E|N].
+           ++ inversion E; subst. apply c_get_del_same. assumption.
+           ++ rewrite c_get_del_other by assumption. apply Hu; assumption.
         -- apply sm_del_sorted. exact Hc.
       * split; [exact HCI|split; [reflexivity|right; reflexivity]].
     + (* marked: the storage answers; a "missing" answer finds the entry and leaves it *)
       unfold set_neg_if_absent.
       destruct (get now st pk cc) as [v|]; try rewrite Eg; cbn [fst snd];
         (split; [exact HCI|split; [reflexivity|right; reflexivity]]).
-    + unfold get. rewrite Hk. cbn [option_map fst snd]. split; [|split; [reflexivity|right; reflexivity]].
-      apply CI_negative; assumption.
+    + destruct (cacheable_key pk cc) eqn:Ck.
+      * unfold get. rewrite (Hk eq_refl). cbn [option_map fst snd]. split; [|split; [reflexivity|right; reflexivity]].
+        apply CI_negative; auto.
+      * unfold set_neg_if_absent.
+        destruct (get now st pk cc) as [v|]; try rewrite Eg; try rewrite (proj2 (fills_skip c pk cc [] Ck)); cbn [fst snd];
+          (split; [exact HCI|split; [reflexivity|right; reflexivity]]).
   - (* TTLRead *) cbn. split; [exact HCI|split; [reflexivity|right; reflexivity]].
   - (* QueryTTL *) cbn. split; [exact HCI|split; [reflexivity|right; reflexivity]].
   - (* Advance *) cbn. split; [|split; [reflexivity|right; reflexivity]].
-    destruct HCI as [Hn He' Hs Hc]. cbn [c_now c_under c_cache fst snd] in *. constructor; cbn [c_now c_under c_cache fst snd]; auto.
+    destruct HCI as [Hn He' Hu Hs Hc]. cbn [c_now c_under c_cache fst snd] in *. constructor; cbn [c_now c_under c_cache fst snd]; auto.
     intros pk' cc' HK'. specialize (He' pk' cc' HK'). unfold entry_ok in *.
-    destruct (c_get c pk' cc') as [[|ex v|]|]; auto; apply lookup_mono; auto.
+    destruct (c_get c pk' cc') as [[|ex v|]|]; auto; try (apply lookup_mono; auto). intros Ck. apply lookup_mono; auto.
 Qed.
 
-(* the code as it is: the flag read from the source says "marked" *)
+(* the code as it is: the flags read from the source say "marked" and "guarded" *)
 Theorem cache_step_transparent s o : CI s -> op_domain o ->
   let r := cache_step spec_step s o in
   CI (fst r) /\ c_under (fst r) = fst (spec_step (c_under s) o) /\
   (dont_care (c_under s) o = true \/ snd r = snd (spec_step (c_under s) o)).
-Proof. unfold cache_step. rewrite flag_big_marked. exact (cache_step_gen_transparent s o). Qed.
+Proof. unfold cache_step. rewrite flag_big_marked, flag_key_guard. exact (cache_step_gen_transparent s o). Qed.
 
 Fixpoint transparent_run (s : cstate) (ops : list sop) : Prop :=
   match ops with
